@@ -79,7 +79,8 @@ claim('C02', 'Coq theorems (round trip by induction; unique / canonical encoding
       'labels, alternatives), generated constructs x mutated encodings, and 15 gallery formats; three recorded known findings.', 'DESIGN.md 6/C02')
 claim('C06', 'Coq theorems on the stream helpers and leaves + outcome-class correspondence + truncation sweep + k-th-operation fault injection',
       'parse_only_construct_errors: for every construct of the closed sequential fragment and every input whatsoever, parse returns a value or a '
-      'ConstructError subclass, never a foreign exception (induction on the syntax). The stream helpers fail only with StreamError and never return fewer bytes than requested; integer leaves and VarInt reject every truncated '
+      'ConstructError subclass, never a foreign exception; truncation_fragment: every strict prefix of what such a construct builds is rejected with StreamError, at '
+      'any stream position (both by induction on the syntax). The stream helpers fail only with StreamError and never return fewer bytes than requested; integer leaves and VarInt reject every truncated '
       'input with StreamError; ExplicitError escapes Select/GreedyRange/Peek; sizeof never leaks KeyError (all constructs). On the library: generated '
       'constructs x random/boundary/huge-length/mutated inputs must give a value or a ConstructError (outcome class compared with the extracted '
       'model); every strict prefix of canonical encodings of strict constructs must be StreamError; every k-th stream operation is made to raise / '
@@ -96,8 +97,9 @@ claim('C16', 'Coq theorems (frame of parsing by induction over all construct cla
       'exactly (lazy_force_restores, lazy_access_restores). lazy_history_order_independent: for every lazy result and every access history - any '
       'order, repetitions, length - each access returns what the first access on the fresh result returns and the position never moves (invariant '
       'over the history: the offset table is constant, the cache only holds such values). lazyarray_matches_array: whenever the eager Array parses, '
-      'LazyArray ends on the same stream and every element is the eager element (element hypotheses proved for Int*/Float* and VarInt). Equality of '
-      'LazyStruct/Lazy with the eager Struct, rebuild and the enclosing parse are checked on the library: all histories with repetition up to k^k '
+      'LazyArray ends on the same stream and every element is the eager element; lazystruct_matches_struct: the same for LazyStruct against Struct '
+      '(member hypotheses proved for Int*/Float* and VarInt; members that read the context are outside the theorem). Lazy, rebuild, '
+      'context-dependent members and the enclosing parse are checked on the library: all histories with repetition up to k^k '
       'for k<=4 (k<=6 thorough) by index/name/attribute, iteration, slicing, on canonical, offset, trailing and mutated inputs; each history also '
       'runs on the extracted model (lazy_run). Five repaired defects (F6, F13, F17-F21).', 'DESIGN.md 6/C16')
 claim('C17', 'Coq theorems over write-effect summaries regenerated from the source by an ast translator (finite admissibility check + frame over all histories and interleavings) + history correspondence with the pure model + vars()/class-state snapshots + entry-point and threaded oracles',
